@@ -263,7 +263,7 @@ static bool sameUpToLastDigit(const std::string& a, const std::string& b)
     char *ea = nullptr, *eb = nullptr;
     double va = strtod(wa.c_str(), &ea), vb = strtod(wb.c_str(), &eb);
     if (*ea != 0 || *eb != 0 || ea == wa.c_str() || eb == wb.c_str()) return false;
-    if (!eqv(va, vb)) return false;
+    if (!eqv(va, vb, 1e-13)) return false; // (a sum of squares of values rounded to 15 digits)
   }
 }
 
@@ -566,10 +566,12 @@ static void runDb(const DbCase& c, Ctx& ctx)
   std::unique_ptr<Db> x(Db::createFromSamples(c.cols.nech, ELoadBy::COLUMN, toVD(c.cols.vals), toVS(c.cols.names), VectorString(), c.cols.rank));
   if (!x) { ctx.label("build-refused"); return; }
   applyLocators(x.get(), c.cols, c.cols.rank ? 1 : 0);
+  // a Db without any column (samples only) has its own class key
+  const std::string cls = x->getColumnNumber() == 0 ? "DbNoColumn" : "Db";
   if (x->getColumnNumber() == 0) ctx.label("empty-db");
-  bool ok = roundTrip<Db>("Db", "Db", "nf_Db", *x, []() { return new Db(); },
+  bool ok = roundTrip<Db>(cls, "Db", "nf_Db", *x, []() { return new Db(); },
                           [](const std::string& p) { return Db::createFromNF(p, false); },
-                          [](const Db& a, const Db& b, Ctx& cx) { return cmpDbPart("Db", a, b, cx); }, c.fo, ctx);
+                          [cls](const Db& a, const Db& b, Ctx& cx) { return cmpDbPart(cls, a, b, cx); }, c.fo, ctx);
   if (!ok) return;
   ctx.nontrivial(colsNonTrivial(c.cols));
   Hash h;
@@ -682,9 +684,11 @@ static void runDbGrid(const DbGridCase& c, Ctx& ctx)
   int first = (c.cols.rank ? 1 : 0) + (c.coords ? c.g.ndim() : 0);
   if (x->getColumnNumber() != first + c.cols.ncol()) { ctx.label("build-refused"); return; }
   applyLocators(x.get(), c.cols, first);
-  bool ok = roundTrip<DbGrid>("DbGrid", "DbGrid", "nf_DbGrid", *x, []() { return new DbGrid(); },
+  const std::string cls = x->getColumnNumber() == 0 ? "DbGridNoColumn" : "DbGrid";
+  if (x->getColumnNumber() == 0) ctx.label("empty-db");
+  bool ok = roundTrip<DbGrid>(cls, "DbGrid", "nf_DbGrid", *x, []() { return new DbGrid(); },
                               [](const std::string& p) { return DbGrid::createFromNF(p, false); },
-                              [](const DbGrid& a, const DbGrid& b, Ctx& cx) { return cmpGridPart("DbGrid", a, b, cx) && cmpDbPart("DbGrid", a, b, cx); },
+                              [cls](const DbGrid& a, const DbGrid& b, Ctx& cx) { return cmpGridPart(cls, a, b, cx) && cmpDbPart(cls, a, b, cx); },
                               c.fo, ctx);
   if (!ok) return;
   ctx.nontrivial(c.g.ndim() >= 2 && (c.g.rotated() || colsNonTrivial(c.cols)));
@@ -2633,10 +2637,19 @@ static void runAnam(const AnamCase& c, Ctx& ctx)
                                          CHECK_EQ_DBL("AnamDiscreteDD", "pca-z2f", az.getValue(i, j), bz.getValue(i, j));
                                          CHECK_EQ_DBL("AnamDiscreteDD", "pca-f2z", af.getValue(i, j), bf.getValue(i, j));
                                        }
-                                     CHECK_QRY_DBL("AnamDiscreteDD", "mean", a.getMean(), b.getMean(), 1e-12);
-                                     CHECK_QRY_DBL("AnamDiscreteDD", "variance", a.getVariance(), b.getVariance(), 1e-11);
                                      return true;
                                    }, c.fo, ctx);
+    if (ok)
+    {
+      // derived statistics, checked last (a recorded defect lives here: they are not recomputed on reload)
+      std::string s1;
+      AnamDiscreteDD y;
+      if (ser(*x, s1) && deser(y, s1))
+      {
+        if (!eqv(x->getMean(), y.getMean(), 1e-12)) ctx.fail("AnamDiscreteDD:query:mean", fmt("mean: %s before, %s after reload", dstr(x->getMean()).c_str(), dstr(y.getMean()).c_str()));
+        else if (!eqv(x->getVariance(), y.getVariance(), 1e-11)) ctx.fail("AnamDiscreteDD:query:variance", fmt("variance: %s before, %s after reload", dstr(x->getVariance()).c_str(), dstr(y.getVariance()).c_str()));
+      }
+    }
     ctx.nontrivial(ok && ncut >= 2);
   }
   else
@@ -2673,14 +2686,286 @@ static void runAnam(const AnamCase& c, Ctx& ctx)
                                        double z = zlo + (zhi - zlo) * u;
                                        if (!sameVecD("AnamDiscreteIR", "z2factor", a.z2factor(z, ifacs), b.z2factor(z, ifacs), cx, ":query:", 1e-12)) return false;
                                      }
-                                     CHECK_QRY_DBL("AnamDiscreteIR", "mean", a.getMean(), b.getMean(), 1e-12);
-                                     CHECK_QRY_DBL("AnamDiscreteIR", "variance", a.getVariance(), b.getVariance(), 1e-11);
                                      return true;
                                    }, c.fo, ctx);
+    if (ok)
+    {
+      // derived statistics, checked last (a recorded defect lives here: they are not recomputed on reload)
+      std::string s1;
+      AnamDiscreteIR y;
+      if (ser(*x, s1) && deser(y, s1))
+      {
+        if (!eqv(x->getMean(), y.getMean(), 1e-12)) ctx.fail("AnamDiscreteIR:query:mean", fmt("mean: %s before, %s after reload", dstr(x->getMean()).c_str(), dstr(y.getMean()).c_str()));
+        else if (!eqv(x->getVariance(), y.getVariance(), 1e-11)) ctx.fail("AnamDiscreteIR:query:variance", fmt("variance: %s before, %s after reload", dstr(x->getVariance()).c_str(), dstr(y.getVariance()).c_str()));
+      }
+    }
     ctx.nontrivial(ok && ncut >= 2);
   }
   ctx.sig = h.h;
 }
 VERIF_SUB(anam, AnamCase, genAnam, runAnam);
+
+// ====================================================================== lithotype rules ==
+struct RuleCase
+{
+  int kind = 0; // 0 Rule, 1 RuleShift, 2 RuleShadow
+  std::vector<std::string> nodes; // prefix description: "S" (threshold on Y1), "T" (on Y2), "F<k>"
+  double rho = 0;
+  std::vector<double> shift; // 2 or 3
+  double slope = 0, dsup = 0, down = 0;
+  std::vector<double> props; // one weight per facies
+  std::vector<double> gaus;  // queries: pairs (y1,y2)
+  FOpt fo;
+  template<class A> void io(A& a)
+  {
+    a("kind", kind)("nodes", nodes)("rho", rho)("shift", shift)("slope", slope)("dsup", dsup)("down", down)("props", props)("gaus", gaus)("fo", fo);
+  }
+};
+static void genTree(std::vector<std::string>& out, int depth, int& nfac, bool onlyS)
+{
+  bool leaf = depth >= 3 || (depth > 0 && G::pct(40)) || nfac >= 7;
+  if (leaf)
+  {
+    nfac++;
+    out.push_back(fmt("F%d", nfac));
+    return;
+  }
+  out.push_back((onlyS || G::b()) ? "S" : "T");
+  genTree(out, depth + 1, nfac, onlyS);
+  genTree(out, depth + 1, nfac, onlyS);
+}
+static RuleCase genRule()
+{
+  RuleCase c;
+  c.kind = G::pick<int>({0, 0, 1, 2});
+  int nfac = 0;
+  if (c.kind == 2) { c.nodes = {"S", "T", "F1", "F2", "F3"}; nfac = 3; }
+  else genTree(c.nodes, 0, nfac, c.kind == 1);
+  c.rho = (c.kind == 0 && G::pct(50)) ? strtod(fmt("%.15g", G::u(-0.9, 0.9)).c_str(), nullptr) : 0.;
+  if (c.kind == 0 && G::pct(30)) c.rho = G::u(-0.9, 0.9);
+  int ns = G::i(2, 3);
+  for (int i = 0; i < ns; i++) c.shift.push_back(i == 0 ? genPos(0.1, 100.) : genVal(0));
+  for (auto& v : c.shift) if (std::fabs(v) > 1e6) v = 1.5;
+  c.slope = genPos(0.1, 80.);
+  c.dsup = genPos(1e-3, 100.);
+  c.down = genPos(1e-3, 100.);
+  for (int i = 0; i < nfac; i++) c.props.push_back(G::u(0.05, 1.));
+  for (int i = 0; i < 16; i++) c.gaus.push_back(G::u(-3., 3.));
+  c.fo = genFOpt();
+  return c;
+}
+static bool cmpRuleBase(const std::string& cls, const Rule& a, const Rule& b, const RuleCase& c, Ctx& ctx)
+{
+  CHECK_EQ_INT(cls, "mode", a.getModeRule().getValue(), b.getModeRule().getValue());
+  CHECK_EQ_DBL(cls, "rho", a.getRho(), b.getRho());
+  CHECK_EQ_INT(cls, "nfacies", a.getFaciesNumber(), b.getFaciesNumber());
+  CHECK_EQ_INT(cls, "ngrf", a.getGRFNumber(), b.getGRFNumber());
+  CHECK_EQ_INT(cls, "ny1", a.getY1Number(), b.getY1Number());
+  CHECK_EQ_INT(cls, "ny2", a.getY2Number(), b.getY2Number());
+  // behaviour: same proportions (they have no slot in the format) then facies of generated gaussian pairs
+  VectorDouble props;
+  double tot = 0;
+  int nf = a.getFaciesNumber();
+  for (int i = 0; i < nf; i++) tot += c.props[(size_t)i % c.props.size()];
+  for (int i = 0; i < nf; i++) props.push_back(c.props[(size_t)i % c.props.size()] / tot);
+  int ra = a.setProportions(props), rb = b.setProportions(props);
+  CHECK_EQ_INT(cls, "setProportions", ra, rb);
+  if (ra != 0) return true;
+  for (size_t q = 0; q + 1 < c.gaus.size(); q += 2)
+    if (a.getFaciesFromGaussian(c.gaus[q], c.gaus[q + 1]) != b.getFaciesFromGaussian(c.gaus[q], c.gaus[q + 1]))
+    {
+      ctx.fail(cls + ":query:facies-from-gaussian", fmt("(y1,y2)=(%.17g,%.17g): facies %d before, %d after reload", c.gaus[q], c.gaus[q + 1],
+                                                        a.getFaciesFromGaussian(c.gaus[q], c.gaus[q + 1]), b.getFaciesFromGaussian(c.gaus[q], c.gaus[q + 1])));
+      return false;
+    }
+  for (int f = 1; f <= nf; f++)
+    if (!sameVecD(cls, "thresholds", a.getThresh(f), b.getThresh(f), ctx, ":query:", 1e-9)) return false;
+  return true;
+}
+static void runRule(const RuleCase& c, Ctx& ctx)
+{
+  resetGlobals();
+  Hash h;
+  h.add(c.kind).add(c.fo.mode).addq(c.rho);
+  for (auto& n : c.nodes) h.add(n);
+  bool ok = false;
+  int nfac = 0;
+  for (auto& n : c.nodes) if (n[0] == 'F') nfac++;
+  if (c.kind == 0)
+  {
+    ctx.label("class:Rule");
+    ctx.at("Rule:build");
+    std::unique_ptr<Rule> x(Rule::createFromNames(toVS(c.nodes), c.rho));
+    if (!x || x->getMainNode() == nullptr) { ctx.label("build-refused"); return; }
+    ok = roundTrip<Rule>("Rule", "Rule", "nf_Rule", *x, []() { return new Rule(); }, [](const std::string& p) { return Rule::createFromNF(p, false); },
+                         [&](const Rule& a, const Rule& b, Ctx& cx) { return cmpRuleBase("Rule", a, b, c, cx); }, c.fo, ctx);
+    ctx.nontrivial(ok && nfac >= 3 && c.rho != 0);
+  }
+  else if (c.kind == 1)
+  {
+    ctx.label("class:RuleShift");
+    ctx.at("RuleShift:build");
+    std::unique_ptr<RuleShift> x(RuleShift::createFromNames(toVS(c.nodes), toVD(c.shift)));
+    if (!x || x->getMainNode() == nullptr) { ctx.label("build-refused"); return; }
+    for (double v : c.shift) h.addq(v);
+    ok = roundTrip<RuleShift>("RuleShift", "RuleShift", nullptr, *x, []() { return new RuleShift(); },
+                              [](const std::string& p) { return loadByTag<RuleShift>(ASerializable::buildFileName(1, p), "RuleShift"); },
+                              [&](const RuleShift& a, const RuleShift& b, Ctx& cx) {
+                                auto& ctx = cx;
+                                CHECK_EQ_DBL("RuleShift", "slope", a.getSlope(), b.getSlope());
+                                CHECK_EQ_DBL("RuleShift", "shdown", a.getShDown(), b.getShDown());
+                                CHECK_EQ_DBL("RuleShift", "shdsup", a.getShDsup(), b.getShDsup());
+                                for (size_t i = 0; i < a.getShift().size(); i++) CHECK_EQ_DBL("RuleShift", "shift", a.getShift((int)i), b.getShift((int)i));
+                                return cmpRuleBase("RuleShift", a, b, c, cx);
+                              }, c.fo, ctx);
+    ctx.nontrivial(ok && nfac >= 2);
+  }
+  else
+  {
+    ctx.label("class:RuleShadow");
+    ctx.at("RuleShadow:build");
+    std::unique_ptr<RuleShadow> x(new RuleShadow(c.slope, c.dsup, c.down, toVD(c.shift)));
+    h.addq(c.slope).addq(c.dsup).addq(c.down);
+    for (double v : c.shift) h.addq(v);
+    ok = roundTrip<RuleShadow>("RuleShadow", "RuleShadow", nullptr, *x, []() { return new RuleShadow(); },
+                               [](const std::string& p) { return loadByTag<RuleShadow>(ASerializable::buildFileName(1, p), "RuleShadow"); },
+                               [&](const RuleShadow& a, const RuleShadow& b, Ctx& cx) {
+                                 auto& ctx = cx;
+                                 CHECK_EQ_DBL("RuleShadow", "slope", a.getSlope(), b.getSlope());
+                                 CHECK_EQ_DBL("RuleShadow", "shdown", a.getShDown(), b.getShDown());
+                                 CHECK_EQ_DBL("RuleShadow", "shdsup", a.getShDsup(), b.getShDsup());
+                                 for (size_t i = 0; i < a.getShift().size(); i++) CHECK_EQ_DBL("RuleShadow", "shift", a.getShift((int)i), b.getShift((int)i));
+                                 return cmpRuleBase("RuleShadow", a, b, c, cx);
+                               }, c.fo, ctx);
+    ctx.nontrivial(ok);
+  }
+  ctx.sig = h.h;
+}
+VERIF_SUB(rule, RuleCase, genRule, runRule);
+
+// ====================================================================== grid exchange formats
+struct GridFmtCase
+{
+  int fmt = 0; // 0 Zycor (2-D, not rotated, one variable), 1 IfpEn (2-D/3-D, rotation about z)
+  GridGeom g;
+  int ncol = 1;
+  std::vector<double> vals; // ncol * ntot
+  template<class A> void io(A& a) { a("fmt", fmt)("g", g)("ncol", ncol)("vals", vals); }
+};
+static GridFmtCase genGridFmt()
+{
+  GridFmtCase c;
+  c.fmt = G::i(0, 1);
+  int ndim = (c.fmt == 0) ? 2 : G::i(2, 3);
+  for (int i = 0; i < ndim; i++)
+  {
+    c.g.nx.push_back(G::sz(2, 5));
+    c.g.dx.push_back(G::b() ? G::lu(1e-2, 1e4) : (double)G::i(1, 50) * 0.5);
+    c.g.x0.push_back(G::pct(30) ? 0. : G::r(-100000, 100000, 4));
+    c.g.angles.push_back(0.);
+  }
+  if (c.fmt == 1 && G::pct(50)) c.g.angles[0] = G::pick<double>({30., 45., -20., 12.5, 90.});
+  c.ncol = (c.fmt == 0) ? 1 : G::i(1, 3);
+  int na = G::pick<int>({0, 20});
+  for (int i = 0; i < c.ncol * c.g.ntot(); i++)
+  {
+    double v;
+    if (G::pct(na)) v = TEST;
+    else switch (G::i(0, 4))
+    {
+      case 0: v = (double)G::i(-5, 5); break;       // facies-like integers (3 is the IfpEn null value)
+      case 1: v = G::lu(1e-20, 1e20) * (G::b() ? 1 : -1); break;
+      case 2: v = genFull01(); break;
+      case 3: v = G::r(-100, 100, 8); break;
+      default: v = 0.; break;
+    }
+    c.vals.push_back(v);
+  }
+  return c;
+}
+// printed precision: "%g"-like, 6 significant digits
+static bool eq6(double a, double b) { return eqv(a, b, 1e-5); }
+static void runGridFmt(const GridFmtCase& c, Ctx& ctx)
+{
+  resetGlobals(c.g.ndim());
+  // several variables in one IfpEn file have their own class key (a recorded defect: read back by sample instead of by column)
+  const std::string cls = c.fmt == 0 ? "GridZycor" : (c.ncol > 1 ? "GridIfpEnMulti" : "GridIfpEn");
+  ctx.label("class:" + cls);
+  VectorString names;
+  for (int k = 0; k < c.ncol; k++) names.push_back(fmt("v%d", k + 1));
+  ctx.at(cls + ":build");
+  std::unique_ptr<DbGrid> x(DbGrid::create(toVI(c.g.nx), toVD(c.g.dx), toVD(c.g.x0), toVD(c.g.angles), ELoadBy::COLUMN, toVD(c.vals), names, VectorString(), false, false));
+  if (!x || x->getColumnNumber() != c.ncol) { ctx.label("build-refused"); return; }
+  std::string path = scratchDir() + "/grid." + (c.fmt == 0 ? "zyc" : "ifp");
+  unlink(path.c_str());
+  VectorInt cols;
+  for (int k = 0; k < c.ncol; k++) cols.push_back(x->getUIDByColIdx(k));
+  std::unique_ptr<DbGrid> y;
+  ctx.at(cls + ":write");
+  bool threeIsNull = false;
+  if (c.fmt == 0)
+  {
+    GridZycor w(path.c_str(), x.get());
+    w.setCols(cols);
+    if (!w.isAuthorized()) { ctx.label("not-authorized"); return; }
+    if (w.writeInFile() != 0) { ctx.fail(cls + ":write", "writeInFile failed on an authorised grid"); return; }
+    ctx.at(cls + ":read");
+    GridZycor r(path.c_str());
+    y.reset(r.readGridFromFile());
+  }
+  else
+  {
+    GridIfpEn w(path.c_str(), x.get());
+    w.setCols(cols);
+    if (!w.isAuthorized()) { ctx.label("not-authorized"); return; }
+    if (w.writeInFile() != 0) { ctx.fail(cls + ":write", "writeInFile failed on an authorised grid"); return; }
+    ctx.at(cls + ":read");
+    GridIfpEn r(path.c_str());
+    y.reset(r.readGridFromFile());
+    threeIsNull = true;
+  }
+  std::string content;
+  if (readFile(path, content)) dumpSeed(c.fmt == 0 ? "zycor" : "ifpen", content);
+  unlink(path.c_str());
+  if (!y) { ctx.fail(cls + ":read", "the reader refused the file written by the writer"); return; }
+  // geometry (the formats describe the horizontal plane; IfpEn always returns a 3-D grid)
+  int nd = c.g.ndim();
+  if (y->getNDim() < nd && !(c.fmt == 1)) { ctx.fail(cls + ":geometry:ndim", fmt("space dimension %d before, %d after", nd, y->getNDim())); return; }
+  for (int i = 0; i < std::min(nd, y->getNDim()); i++)
+  {
+    if (x->getNX(i) != y->getNX(i)) { ctx.fail(cls + ":geometry:nx", fmt("axis %d: %d nodes before, %d after", i, x->getNX(i), y->getNX(i))); return; }
+    if (i >= 2) continue; // the vertical mesh and origin have no slot in IfpEn
+    // Zycor prints the origin and the far corner with 6 decimals: dx = (xf - x0)/(nx-1)
+    double tolx0 = (c.fmt == 0) ? 1e-6 : 1e-5 * std::fabs(x->getX0(i));
+    double toldx = (c.fmt == 0) ? 2e-6 / (x->getNX(i) - 1) : 1e-5 * x->getDX(i);
+    if (std::fabs(x->getX0(i) - y->getX0(i)) > tolx0) { ctx.fail(cls + ":geometry:x0", fmt("axis %d: origin %.17g before, %.17g after", i, x->getX0(i), y->getX0(i))); return; }
+    if (std::fabs(x->getDX(i) - y->getDX(i)) > toldx) { ctx.fail(cls + ":geometry:dx", fmt("axis %d: mesh %.17g before, %.17g after", i, x->getDX(i), y->getDX(i))); return; }
+  }
+  if (c.fmt == 1 && !eq6(x->getAngle(0), y->getAngle(0))) { ctx.fail(cls + ":geometry:angle", fmt("angle %.17g before, %.17g after", x->getAngle(0), y->getAngle(0))); return; }
+  if (y->getSampleNumber() != x->getSampleNumber()) { ctx.fail(cls + ":geometry:nech", fmt("%d nodes before, %d after", x->getSampleNumber(), y->getSampleNumber())); return; }
+  int ncolOut = y->getColumnNumber();
+  int firstOut = ncolOut - c.ncol; // readers may add coordinates in front
+  if (firstOut < 0) { ctx.fail(cls + ":values:ncol", fmt("%d variables before, %d columns after", c.ncol, ncolOut)); return; }
+  for (int k = 0; k < c.ncol; k++)
+    for (int ie = 0; ie < x->getSampleNumber(); ie++)
+    {
+      double a = x->getValueByColIdx(ie, k), b = y->getValueByColIdx(ie, firstOut + k);
+      if (eq6(a, b)) continue;
+      if (threeIsNull && !isNAv(a) && std::fabs(a - 3.) < 1e-5 && isNAv(b))
+      {
+        ctx.fail("ifpen-value-3-is-null:" + cls, fmt("node %d variable %d: %.17g before, NA after (the writer declares FLOAT_NULL_VALUE 3 but writes NA as 1.234e+30)", ie, k, a));
+        return;
+      }
+      ctx.fail(cls + ":values", fmt("node %d variable %d: %s before, %s after", ie, k, dstr(a).c_str(), dstr(b).c_str()));
+      return;
+    }
+  ctx.nontrivial(c.g.ntot() >= 4);
+  Hash h;
+  h.add(c.fmt).add(c.ncol);
+  gridSig(h, c.g);
+  for (double v : c.vals) h.addq(v);
+  ctx.sig = h.h;
+}
+VERIF_SUB(gridfmt, GridFmtCase, genGridFmt, runGridFmt);
 
 VERIF_MAIN()
